@@ -49,6 +49,25 @@ def profile_local(tier):
                 register=gen.register_specs(n=(2, 3)))
 
 
+def profile_align_fall(tier):
+    """Two modulated channels whose custom phase-jump time is below twice the rise time, pulses
+    followed by short delays, frequent align(at_rest=...): the latest end counting fall time."""
+    def force(d):
+        import copy
+
+        d = copy.deepcopy(d)
+        for i, c in enumerate(d["channels"]):
+            c["custom_phase_jump_time"] = [0, 20, 40, 0][i % 4]
+        return d
+
+    p = profile(tier)
+    return dict(p, min_ops=6, max_ops=24, fault_pct=1, max_channels=2,
+                weights={"declare": 8, "declare_more": 2, "add": 8, "align": 8, "delay": 10,
+                         "phase_shift": 0, "target": 2, "eom": 0},
+                device=gen.device_specs(n_channels=(2, 2), allow_builtin=False, allow_dmm=False,
+                                        chan_kw={"bandwidth": [2, 4, 8, 20], "eom": False}).map(force))
+
+
 def check(case, ctx: Ctx):
     w = history.Walker(case, ctx, {"C03"}).run()
     st_ = w.stats
@@ -69,4 +88,7 @@ CLAUSES = [
     Clause("local_retarget", check, gen=lambda t: gen.programs(profile_local(t)),
            budget={"quick": (8, 150), "thorough": (16, 3000)},
            doc="local channels only, frequent retargets (stale conflicts)"),
+    Clause("align_after_short_delays", check, gen=lambda t: gen.programs(profile_align_fall(t)),
+           budget={"quick": (8, 100), "thorough": (16, 2000)},
+           doc="align / min-delay after pulses followed by short delays on channels with a short custom phase-jump time"),
 ]
